@@ -44,13 +44,16 @@ const c02KeySrc = "Decl k(K,V).\n" +
 	"h(K,C) :- k(K,V) |> do fn:group_by(K), let C = fn:count().\n" +
 	"g(K,S) :- k(K,V) |> do fn:group_by(K), let S = fn:sum(V).\n" +
 	"j(K,L,C) :- k(K,V), k(L,_) |> do fn:group_by(K,L), let C = fn:count().\n" +
-	"m(K,D) :- k(K,V), V < 9 |> do fn:group_by(K), let D = fn:collect_distinct(V).\n"
+	"m(K,D) :- k(K,V), V < 9 |> do fn:group_by(K), let D = fn:collect_distinct(V).\n" +
+	"cd(D) :- k(K,_) |> do fn:group_by(), let D = fn:collect_distinct(K).\n" +
+	"cv(V,D) :- k(K,V), k(_,V) |> do fn:group_by(V), let D = fn:collect_distinct(K).\n"
 
 func c02KeyCase(r *rt.Run, pp parsedProg, U []ast.Constant, i, j int, kind string) {
 	edb := []ast.Atom{
 		ast.NewAtom("k", U[i], ast.Number(1)),
 		ast.NewAtom("k", U[i], ast.Number(2)),
 		ast.NewAtom("k", U[j], ast.Number(5)),
+		ast.NewAtom("k", U[j], ast.Number(1)),
 	}
 	w := map[string]any{"family": "group-key-values", "k1": i, "k2": j, "key1": U[i].String(), "key2": U[j].String(), "store": kind, "source": c02KeySrc}
 	ref, rerr := oracle.Eval(pp.clauses, edb, oracle.Config{MaxRounds: 20, MaxFacts: 2000})
@@ -82,7 +85,7 @@ func c02KeyCase(r *rt.Run, pp parsedProg, U []ast.Constant, i, j int, kind strin
 		return
 	}
 	if missing, extra := mg.Diff(want, got); len(missing)+len(extra) > 0 {
-		r.Violate("groups-conflated-or-split", fmt.Sprintf("group keys %v and %v (rows k(K1,1) k(K1,2) k(K2,5)): head facts differ from the per-key reduction: missing %s; unexpected %s", U[i], U[j], mg.Short(missing), mg.Short(extra)), w)
+		r.Violate("groups-conflated-or-split", fmt.Sprintf("group keys %v and %v (rows k(K1,1) k(K1,2) k(K2,5) k(K2,1)): head facts differ from the per-key reduction: missing %s; unexpected %s", U[i], U[j], mg.Short(missing), mg.Short(extra)), w)
 	}
 }
 
